@@ -180,6 +180,26 @@ Proof.
   destruct cur_ok, err, s1, s2; cbn [st_code]; leaf_solve.
 Qed.
 
+(* ---- one iteration of the window-sum loop (translator mode LoopBody): after the prologue (error
+   return of currentCounter, the two counter adds) the body adds the bucket's counters with uint64
+   wrap-around and continues; Proofs.BreakerLeafProofs.sum_loop_exact: iterating it gives the exact
+   sums while they stay below 2^64 ---- *)
+
+Lemma cb_slow_sum_step_ok maxrt a b cur_ok rt s t :
+  cb_slow_sum_step maxrt a b cur_ok rt s t =
+  if cur_ok then (LContinue (sum_step s t a b), map enc (adds_leaf (maxrt <? rt))) else (LReturn tt, []).
+Proof. unfold cb_slow_sum_step, sum_step, adds_leaf. destruct cur_ok; leaf_solve. Qed.
+
+Lemma cb_errRatio_sum_step_ok a b cur_ok err s t :
+  cb_errRatio_sum_step a b cur_ok (negb err) s t =
+  if cur_ok then (LContinue (sum_step s t a b), map enc (adds_leaf err)) else (LReturn tt, []).
+Proof. unfold cb_errRatio_sum_step, sum_step, adds_leaf. destruct cur_ok, err; leaf_solve. Qed.
+
+Lemma cb_errCount_sum_step_ok a b cur_ok err s t :
+  cb_errCount_sum_step a b cur_ok (negb err) s t =
+  if cur_ok then (LContinue (sum_step s t a b), map enc (adds_leaf err)) else (LReturn tt, []).
+Proof. unfold cb_errCount_sum_step, sum_step, adds_leaf. destruct cur_ok, err; leaf_solve. Qed.
+
 (* ---- the sequential model of C03 is these functions run by one caller (Proofs/BreakerLeafProofs.v) ---- *)
 
 Theorem C03_try_pass_regenerated c b now :
@@ -205,3 +225,6 @@ Print Assumptions cb_slow_OnRequestComplete_ok.
 Print Assumptions cb_errRatio_OnRequestComplete_ok.
 Print Assumptions cb_errCount_OnRequestComplete_ok.
 Print Assumptions C03_try_pass_regenerated.
+Print Assumptions cb_slow_sum_step_ok.
+Print Assumptions cb_errRatio_sum_step_ok.
+Print Assumptions cb_errCount_sum_step_ok.
